@@ -96,6 +96,9 @@ pub struct Case {
     /// immediately before the main call
     #[serde(default)]
     pub pre_du: Vec<i64>,
+    /// shuffle_two only: the SAME slice is passed as both arrays
+    #[serde(default)]
+    pub alias: bool,
 }
 
 /// structure-only check of one call on plain distinct data (used for the earlier calls of a run)
@@ -324,6 +327,7 @@ impl Prop for C19 {
                 pre_same: (run % 3 == 2) as usize,
                 pre_prefix: if run % 6 == 2 { n / 2 } else { 0 },
                 pre_du: vec![],
+                alias: false,
             };
         }
         let _ = tier;
@@ -343,6 +347,7 @@ impl Prop for C19 {
                 pre_same: 0,
                 pre_prefix: 0,
                 pre_du: vec![],
+                alias: false,
             };
         }
         let func = *r.pick(&[
@@ -433,7 +438,8 @@ impl Prop for C19 {
         } else {
             vec![]
         };
-        Case { func, data: fbs(&data), mode: mode.into(), n_boot, seeding, script, repeat, pre, pre_same, pre_prefix, pre_du }
+        let alias = func == Func::ShuffleTwo && r.chance(0.12);
+        Case { func, data: fbs(&data), mode: mode.into(), n_boot, seeding, script, repeat, pre, pre_same, pre_prefix, pre_du, alias }
     }
 
     fn exec(case: &Case, st: &mut Stats) -> Option<Viol> {
@@ -738,6 +744,29 @@ impl Prop for C19 {
                     }
                 }
             },
+            Func::ShuffleTwo if case.alias => {
+                // one array passed twice: both results must be the same permutation of it
+                st.inc("call.shuffle_two_aliased");
+                match catch(|| shuffle_two(&data, &data)) {
+                    Err(msg) => {
+                        let class = if is_budget_panic(&msg) { "nontermination" } else { "panic" };
+                        verdict = mk("shuffle_two_paired", class, msg);
+                    }
+                    Ok((x, y)) => {
+                        h.fs(&x);
+                        h.fs(&y);
+                        let mut a: Vec<u64> = data.iter().map(|v| v.to_bits()).collect();
+                        let mut b: Vec<u64> = x.iter().map(|v| v.to_bits()).collect();
+                        a.sort_unstable();
+                        b.sort_unstable();
+                        if a != b {
+                            verdict = mk("shuffle_two_paired", "not_a_permutation", format!("shuffle_two(v, v): first output is not a permutation of v (len in {}, out {})", n, x.len()));
+                        } else if slice_bits_eq(&x, &y).is_some() {
+                            verdict = mk("shuffle_two_paired", "unpaired", "shuffle_two(v, v) with the same slice as both arrays returned two different arrangements".to_string());
+                        }
+                    }
+                }
+            }
             Func::ShuffleTwo => {
                 let tags: Vec<f64> = (0..n).map(tag).collect();
                 match catch(|| shuffle_two(&data, &tags)) {
@@ -871,6 +900,11 @@ impl Prop for C19 {
             c.pre_du.clear();
             out.push(c);
         }
+        if case.alias {
+            let mut c = case.clone();
+            c.alias = false;
+            out.push(c);
+        }
         for rp in [1usize, case.repeat / 2] {
             if rp >= 1 && rp < case.repeat {
                 let mut c = case.clone();
@@ -925,7 +959,7 @@ impl Prop for C19 {
             "len.len2-8", "len.len9+", "mode.distinct", "mode.repeated", "mode.special", "mode.special_distinct",
             "seeding.seed_clock", "seeding.seed_small", "seeding.seed_set", "fault.rng_zero",
             "fault.rng_max", "fault.rng_tiny", "fault.rng_half", "fault.rng_streak",
-            "stat.dkw_checked", "stat.coverage_checked", "stat.frequency_checked", "stat.joint_checked", "stat.chi_square_checked", "stat.order_checked", "earlier_calls_on_thread", "earlier_calls_on_same_buffer", "earlier_rejected_request", "other_client_draws_first", "fault.rng_pair",
+            "stat.dkw_checked", "stat.coverage_checked", "stat.frequency_checked", "stat.joint_checked", "stat.chi_square_checked", "stat.order_checked", "earlier_calls_on_thread", "earlier_calls_on_same_buffer", "earlier_rejected_request", "other_client_draws_first", "call.shuffle_two_aliased", "fault.rng_pair",
         ]
         .iter()
         .map(|s| s.to_string())
